@@ -74,12 +74,12 @@ type e2eExplorer struct {
 	idx   int64
 }
 
-func e2e(c *vk.Ctx, idx int64) {
+func e2e(c *vk.Ctx, idx int64) int64 {
 	bound := 1
 	pres := []int{0, 1, 2}
 	if c.Thorough() {
 		bound = 2
-		pres = []int{0, 1, 2, 3, 5}
+		pres = []int{0, 1, 2, 5}
 	}
 	c.Note(fmt.Sprintf("family e2e (real driver, -proto, differential against -symbolize=none): %d layouts x %d function tables x flags {none, m0:F} x {file source, URL source} x %d modes; answer sequences with <= %d non-default answers (search-path Open: 3 answers)", nLayouts, len(pres), len(e2eModes), bound))
 	for la := 0; la < nLayouts; la++ {
@@ -90,7 +90,7 @@ func e2e(c *vk.Ctx, idx int64) {
 						if c.Mine(idx) {
 							if c.Expired() {
 								c.Cap(fmt.Sprintf("time budget: stopped in family e2e at case index %d", idx))
-								return
+								return idx
 							}
 							x := &e2eExplorer{c: c, bound: bound, idx: idx, cs: Case{Layout: la, Flags: fl, Pre: pre, Names: 3, Src: src, Mode: mode, E2E: true}}
 							x.explore(nil, 0)
@@ -108,6 +108,7 @@ func e2e(c *vk.Ctx, idx int64) {
 			}
 		}
 	}
+	return idx
 }
 
 func (x *e2eExplorer) explore(pre []int, devs int) {
@@ -127,9 +128,13 @@ func (x *e2eExplorer) explore(pre []int, devs int) {
 
 func (x *e2eExplorer) run(mode string, pre []int) (*drive.Result, *world) {
 	sbx := drive.Sandbox()
-	tmp := filepath.Join(sbx, "tmp")
-	os.RemoveAll(tmp)
-	os.MkdirAll(tmp, 0755)
+	if x.cs.Src == 1 && mode != "none" {
+		// a profile from a URL is saved under $PPROF_TMPDIR with a fresh
+		// numbered name; keep the directory from filling up
+		tmp := filepath.Join(sbx, "tmp")
+		os.RemoveAll(tmp)
+		os.MkdirAll(tmp, 0755)
+	}
 	w := &world{cs: &x.cs, pre: pre, e2e: true, binDir: filepath.Join(sbx, "bin")}
 	p, _ := build(&x.cs, w)
 	fake := &tool{w}
